@@ -3,7 +3,7 @@
     operators is dropped. Proved for every well-formed program (any number of
     pipelines, any atoms), by induction over atoms / items. *)
 From Cicada Require Import Base.Chars Model.Cmds Model.ListExec Proofs.ListExecProofs.
-From Coq Require Import Lia.
+From Coq Require Import Lia PeanoNat.
 Local Open Scope N_scope.
 
 (** * Atoms of a pipeline text *)
@@ -232,11 +232,62 @@ Qed.
 Lemma solid_nonempty s : solid s = true -> is_empty s = false.
 Proof. destruct s; [discriminate|reflexivity]. Qed.
 
+(** ** Trailing backslashes: in a rendered segment they always come in pairs,
+    so [trim_cmd] (which keeps a blank escaped by an odd number of
+    backslashes) trims a padded segment exactly like [trim]. *)
+Definition tb (s : str) : nat := leading_bs (rev s).
+
+Lemma tb_snoc s c : tb (s ++ [c]) = if c =? 92 then S (tb s) else O.
+Proof. unfold tb. rewrite rev_app_distr. reflexivity. Qed.
+
+Lemma tb_atom x a : wf_atom a = true -> Nat.even (tb x) = true -> Nat.even (tb (x ++ render_atom a)) = true.
+Proof.
+  intros Hwf Hx. destruct a as [c|c|t|t|t|]; cbn [render_atom wf_atom] in *.
+  - rewrite tb_snoc. apply lcls_eqb_eq in Hwf. unfold lclassify in Hwf.
+    destruct (c =? 92) eqn:E; [discriminate Hwf|reflexivity].
+  - change [c_bs; c] with ([c_bs] ++ [c]). rewrite app_assoc, tb_snoc.
+    destruct (c =? 92); [|reflexivity]. rewrite tb_snoc. cbn. exact Hx.
+  - change (c_sq :: t ++ [c_sq]) with ((c_sq :: t) ++ [c_sq]). rewrite app_assoc, tb_snoc. reflexivity.
+  - change (c_dq :: t ++ [c_dq]) with ((c_dq :: t) ++ [c_dq]). rewrite app_assoc, tb_snoc. reflexivity.
+  - change (c_bq :: t ++ [c_bq]) with ((c_bq :: t) ++ [c_bq]). rewrite app_assoc, tb_snoc. reflexivity.
+  - change [c_pipe; c_space] with ([c_pipe] ++ [c_space]). rewrite app_assoc, tb_snoc. reflexivity.
+Qed.
+
+Lemma tb_seg l : forallb wf_atom l = true -> forall x,
+  Nat.even (tb x) = true -> Nat.even (tb (x ++ render_seg l)) = true.
+Proof.
+  induction l as [|a l IH]; intros Hwf x Hx.
+  - cbn. now rewrite app_nil_r.
+  - cbn [forallb] in Hwf. apply andb_true_iff in Hwf as [Ha Hl].
+    cbn [render_seg flat_map]. rewrite app_assoc. fold (render_seg l).
+    apply IH; [exact Hl|]. now apply tb_atom.
+Qed.
+
+Lemma even_bs_seg l : forallb wf_atom l = true -> Nat.even (tb (render_seg l)) = true.
+Proof. intros H. apply (tb_seg l H []). reflexivity. Qed.
+
+Lemma trim_cmd_pad ws1 s ws2 :
+  forallb is_ws ws1 = true -> forallb is_ws ws2 = true -> solid s = true ->
+  Nat.even (tb s) = true -> trim_cmd (ws1 ++ s ++ ws2) = s.
+Proof.
+  intros H1 H2 Hs He. pose proof Hs as Hs'. apply andb_true_iff in Hs' as [Hf Hl].
+  unfold trim_cmd. rewrite trim_start_ws by assumption.
+  assert (E : trim_start (s ++ ws2) = s ++ ws2).
+  { destruct s as [|c r]; [discriminate|]. cbn in *. now rewrite (negb_true_false _ Hf). }
+  rewrite E.
+  assert (E2 : trim_end (s ++ ws2) = s).
+  { unfold trim_end. rewrite rev_app_distr, trim_start_ws by now rewrite forallb_rev.
+    rewrite trim_start_solid by assumption. apply rev_involutive. }
+  rewrite E2. fold (tb s). unfold Nat.odd. rewrite He. cbn [negb].
+  now destruct (Nat.ltb (length s) (length (s ++ ws2))).
+Qed.
+
 Lemma push_trimmed_pad res ws1 s ws2 :
   forallb is_ws ws1 = true -> forallb is_ws ws2 = true -> solid s = true ->
+  Nat.even (tb s) = true ->
   push_trimmed res (ws1 ++ s ++ ws2) = res ++ [s].
 Proof.
-  intros. unfold push_trimmed. rewrite trim_pad by assumption.
+  intros. unfold push_trimmed. rewrite trim_cmd_pad by assumption.
   now rewrite solid_nonempty.
 Qed.
 
@@ -278,7 +329,7 @@ Proof.
   induction items as [|it items IH]; intros Hwf res pre seg ws_end Hpre Hseg Hend.
   - cbn [flat_map app map tokens_of_tail]. rewrite <- (app_nil_r ws_end), loop_ws by assumption.
     cbn [l2c_loop]. unfold l2c_finish. cbn [l_res l_tok]. rewrite <- app_assoc.
-    apply andb_true_iff in Hseg as [_ Hs]. now apply push_trimmed_pad.
+    apply andb_true_iff in Hseg as [Hat Hs]. apply push_trimmed_pad; try assumption. now apply even_bs_seg.
   - cbn [forallb] in Hwf. apply andb_true_iff in Hwf as [Hit Hwf].
     unfold wf_item in Hit. repeat (apply andb_true_iff in Hit as [Hit ?]).
     assert (Ho : is_op (it_op it)) by (unfold is_op; destruct (it_op it); congruence).
@@ -289,8 +340,8 @@ Proof.
     apply andb_true_iff in Hseg' as [Hatoms' _].
     rewrite (loop_seg _ Hatoms').
     rewrite IH by assumption.
-    apply andb_true_iff in Hseg as [_ Hs].
-    rewrite <- (app_assoc pre), push_trimmed_pad by assumption.
+    apply andb_true_iff in Hseg as [Hat Hs].
+    rewrite <- (app_assoc pre), push_trimmed_pad by (try assumption; now apply even_bs_seg).
     cbn [map tokens_of_tail flat_map]. rewrite <- !app_assoc. reflexivity.
 Qed.
 
